@@ -293,6 +293,10 @@ pub fn judge(scn: &Scenario, rr: &RunResult, out: &mut Vec<Viol>) {
                     }
                 }
             }
+            Obs::Panicked { t, thread, msg } => {
+                let short: String = msg.chars().take(60).collect();
+                v(out, "C06", &format!("library_call_panicked/{}", short.replace(|c: char| !c.is_ascii_alphanumeric(), "_")), format!("t={t}: a library call on thread {thread} panicked: {msg}"));
+            }
             Obs::HorizonExceeded { t, what } => {
                 let injectors_done = all_push_calls.len() == all_push_returns.len() && all_push_returns.iter().all(|r| r < t);
                 if injectors_done {
